@@ -121,6 +121,7 @@ def _sym_templates():
         "k3": (t5, [a, b, c]),
         "doc": (t6, [b, a]),  # ordering differs from appearance, like in the docs
         "mix": (t7, [a, b]),
+        "dz": (sympy.Matrix([[1, 0], [0, a]]), [a]),  # unitary exactly when |a| = 1: a parameter that is not an angle
     }
 
 
